@@ -18,6 +18,8 @@ pub async fn download_object(
         key, bucket
     );
     let path = format!("https://{bucket}.s3.amazonaws.com/{key}");
+    #[cfg(nexrad_verif)]
+    let path = crate::aws::s3::verif::rewrite(path);
 
     let response = reqwest::get(path).await.map_err(S3GetObjectRequestError)?;
     trace!(
